@@ -49,6 +49,12 @@ def replay(kind, h, handshakes):
         if err:
             return "step %d %s%s: servicing raised %s (steps so far %s)" % (
                 k + 1, e["op"], e["a"], err, [(x["op"], x["a"]) for x in h[:k + 1]])
+        if e["op"] == "again":
+            # only "does not raise"; a client whose handshake was aborted has connected anew: the rest of the behaviour is
+            # about the old connection and cannot be compared any further
+            if (e["obs"]["1"] if isinstance(e["obs"], dict) else e["obs"][0])["hs"] == "aborted" and kind.startswith("client"):
+                return None
+            continue
         o = e["obs"]["1"] if isinstance(e["obs"], dict) else e["obs"][0]
         real, want = ep.obs(), tcpadapt.expect(o, 0, 0)
         if want["hs"] == "aborted":
